@@ -53,7 +53,7 @@ def sibling_rich(ir) -> bool:
     return False
 
 
-PROF = docs.profile(max_schemas=6, max_props=5, max_ops=3, max_depth=2, desc=True, component_unions=True, affix_names=2, allof_one_in=2)
+PROF = docs.profile(max_schemas=6, max_props=5, max_ops=3, max_depth=2, desc=True, component_unions=True, affix_names=2, allof_one_in=2, prefix_items=True)
 
 
 @st.composite
